@@ -902,7 +902,8 @@ fn cmd_run(args: &Args) {
         p => panic!("trans does not serve {}", p),
     };
     let tier = Tier::parse(&args.get("tier").unwrap_or("quick".into()));
-    let exhaustive = tier == Tier::Thorough && !args.has("no-exhaustive");
+    // the 2^32 sweeps run in both builds under C12..C17; the profile-independence pass leaves them out unless asked
+    let exhaustive = tier == Tier::Thorough && !args.has("no-exhaustive") && (prop != Prop::C11 || std::env::var("VERIF_C11_FULL").is_ok());
     let t0 = std::time::Instant::now();
     let ps = pairs();
     let ts = trigs();
